@@ -219,6 +219,9 @@ func c05Rules(rng *rand.Rand, dir, file string) []c05Rule {
 		{"in=(a/b/cd)", func(r *rand.Rand) string { return pick(r, "a", "b", "cd") }, "abcd/()"},
 		{"in=(1/23/4.5)|msg", func(r *rand.Rand) string { return pick(r, "1", "23", "4.5") }, "12345./"},
 		{"in=(a/'/d'/'x/y')", func(r *rand.Rand) string { return pick(r, "a", "/d", "x/y") }, "a/dxy'"},
+		{"in=('f(x)'/b)", func(r *rand.Rand) string { return pick(r, "f(x)", "b") }, "f(x)b'"},
+		{"in=(:)/:(/c)|msg", func(r *rand.Rand) string { return pick(r, ":)", ":(", "c") }, ":()c"},
+		{"include=('(ok)'/yes)", func(r *rand.Rand) string { return word(r, r.Intn(2)) + pick(r, "(ok)", "yes") + word(r, r.Intn(2)) }, "(ok)yes"},
 		{"include=(hello/te st)", func(r *rand.Rand) string { return word(r, r.Intn(3)) + pick(r, "hello", "te st") + word(r, r.Intn(3)) }, "helo tes"},
 		{"include=('a/b'/c)", func(r *rand.Rand) string { return word(r, r.Intn(2)) + pick(r, "a/b", "c") + word(r, r.Intn(2)) }, "a/bc'"},
 	}
